@@ -134,9 +134,9 @@ class BuildError(Exception):
 
 WRAP_IO = ("open open64 creat close read pread pread64 write lseek lseek64 fsync fdatasync "
            "unlink rename mkdir rmdir link stat fstat access opendir mmap").split()
-WRAP_SCHED = ("pthread_create pthread_join pthread_detach pthread_mutex_init pthread_mutex_destroy "
-              "pthread_mutex_lock pthread_mutex_trylock pthread_mutex_unlock pthread_cond_init "
-              "pthread_cond_destroy pthread_cond_wait pthread_cond_timedwait pthread_cond_signal "
+WRAP_SCHED = ("pthread_create pthread_join pthread_mutex_init pthread_mutex_destroy "
+              "pthread_mutex_lock pthread_mutex_unlock pthread_cond_init "
+              "pthread_cond_destroy pthread_cond_wait pthread_cond_signal "
               "pthread_cond_broadcast select").split()
 
 
@@ -154,18 +154,20 @@ def build_harness(name, flavour, sources, wrap=(), extra_cflags="", extra_ldflag
     with Lock(os.path.join(bdir, "bin", name + ".lock")):
         if os.path.exists(out):
             return out
-        # drop stale binaries of this harness
+        # drop stale binaries of this harness (not recent ones: another check may be running them)
         for f in os.listdir(os.path.join(bdir, "bin")):
-            if f.startswith(name + "-"):
+            if f.startswith(name + "-") and not f.endswith(".tmp"):
+                fp = os.path.join(bdir, "bin", f)
                 try:
-                    os.unlink(os.path.join(bdir, "bin", f))
+                    if time.time() - os.path.getmtime(fp) > 6 * 3600:
+                        os.unlink(fp)
                 except OSError:
                     pass
         t0 = time.time()
         srcs = [os.path.join(hdir, s) for s in sources]
         cmd = [fl["cc"]] + fl["cflags"].split() + extra_cflags.split() + [
             "-D_GNU_SOURCE", "-DLDB_PTHREAD", "-std=gnu99", "-Wall", COMMON_WARN,
-            "-I", os.path.join(REPO, "include"), "-I", os.path.join(REPO, "src"), "-I", hdir]
+            "-I", os.path.join(REPO, "include"), "-I", os.path.join(REPO, "src"), "-iquote", hdir]
         cmd += ["-D" + d for d in defines]
         cmd += srcs + [lib]
         if wrap:
